@@ -22,6 +22,13 @@ write-log entries `k:v` / `k:~` (delete).
   reopen HASH                  NewWithRoot at a committed root (no overlays open)
   applywl LOG                  ApplyWriteLog on the tree, entries in the given order
   getwl H1 H2 LOG              NodeDB.GetWriteLog(H1 -> H2): sub-log of Commit's log that maps contents(H1) to contents(H2)
+  getwlf H1 H2 must|may RES    GetWriteLog(H1 -> H2) where H2 is one of several candidate roots of a
+                               version (forks). RES is a log, or `NOTSERVED` (the backend's "write log not
+                               found" / "not finalized" / "root not found" error). Admissible outcomes:
+                               a served log must be a sub-log of the log Commit built for exactly this
+                               pair and map contents(H1) to contents(H2) — never another fork's —;
+                               `NOTSERVED` is admissible only with `may` (H2 not finalized, or discarded);
+                               for the finalized candidate (`must`) the log has to be served.
   wf                           model self-check: current trie is in canonical form
   ksplit K SP KL PRE SUF | kmerge K KL K2 K2L RES | kcpl K KL K2 K2L N | kappend K KL B RES | kgetbit K I B
                                node.Key byte-level operations: answers compared with the byte-level
@@ -187,10 +194,11 @@ def step (st : St) (line : String) : St × String :=
     -- missing from the served log.
     match parseHex h1, parseHex h2, parseLog log with
     | some h1, some h2, some log =>
-      match st.logs.find? (fun e => e.1 == h1 && e.2.1 == h2), st.roots.lookup h1, st.roots.lookup h2 with
-      | some e, some t1, some t2 =>
+      -- (several commits may have produced the same pair of roots: any of their logs is a log of the pair)
+      match st.logs.filter (fun e => e.1 == h1 && e.2.1 == h2), st.roots.lookup h1, st.roots.lookup h2 with
+      | e :: es, some t1, some t2 =>
         let served := sortLog log
-        if !(served.all (fun x => e.2.2.contains x)) then
+        if !((e :: es).any (fun e => served.all (fun x => e.2.2.contains x))) then
           fail s!"db-write-log has entries Commit did not report: model={showLog e.2.2} impl={showLog served}"
         else if (served.map (·.1)).eraseDups.length != served.length then
           fail s!"db-write-log has duplicate keys: impl={showLog served}"
@@ -199,6 +207,28 @@ def step (st : St) (line : String) : St × String :=
         else (st, "ok")
       | _, _, _ => fail "getwl: no such transition in the model"
     | _, _, _ => fail "bad-op"
+  | ["getwlf", h1, h2, mode, res] =>
+    match parseHex h1, parseHex h2 with
+    | some h1, some h2 =>
+      if res == "NOTSERVED" then
+        if mode == "may" then (st, "ok")
+        else fail s!"fork-write-log of the finalized root {showHex h2} is not served"
+      else
+      match parseLog res with
+      | some log =>
+        match st.logs.filter (fun e => e.1 == h1 && e.2.1 == h2), st.roots.lookup h1, st.roots.lookup h2 with
+        | e :: es, some t1, some t2 =>
+          let served := sortLog log
+          if applyLogSpec t1.toList served != t2.toList then
+            fail s!"fork-write-log served for {showHex h2} does not reach it: expected={showLog e.2.2} impl={showLog served}"
+          else if !((e :: es).any (fun e => served.all (fun x => e.2.2.contains x))) then
+            fail s!"fork-write-log has entries Commit did not report for this root: model={showLog e.2.2} impl={showLog served}"
+          else if (served.map (·.1)).eraseDups.length != served.length then
+            fail s!"fork-write-log has duplicate keys: impl={showLog served}"
+          else (st, "ok")
+        | _, _, _ => fail "getwlf: no such transition in the model"
+      | none => fail "bad-op"
+    | _, _ => fail "bad-op"
   | ["ksplit", k, sp, kl, pre, suf] =>
     match parseHex k, sp.toNat?, kl.toNat?, parseHex pre, parseHex suf with
     | some k, some sp, some kl, some pre, some suf =>
